@@ -10,8 +10,11 @@ package main
 // "error and nothing changed" (the handle refuses further work after a failed call: association.Error is sticky) - and nothing else.
 
 import (
+	"encoding/json"
 	"fmt"
+	"math/rand"
 	"reflect"
+	"strings"
 
 	"gorm.io/gorm"
 )
@@ -188,5 +191,147 @@ func (t *c12Sticky) failed(op c12Op) {
 		t.errA = true
 	case 2:
 		t.errU = true
+	}
+}
+
+// ---- correspondence: the handle machine of Model/AssocHandle.lean vs the real handles ----------------------------------------------
+//
+// A sequence with a handle plan is translated into the instruction program its executor performs (c12Handles.handle); the Lean
+// machine - with Unscoped() behaving as the REGENERATED facts say - answers, per call, whether it is refused (sticky error), runs
+// scoped or runs Unscoped.  The real run shows the same through the error it returns and through the clean-up statement of
+// Replace / Delete / Clear on has-one / has-many relations: `DELETE FROM target` (Unscoped) vs `UPDATE target SET fk = NULL`.
+
+func c12HandleProgram(s c12Seq) (prog [][]interface{}, callAt []int) {
+	first, hasU := true, false
+	for step, op := range s.Ops {
+		base := 0
+		if op.Via == 0 {
+			base = 100 + step
+			prog = append(prog, []interface{}{"assoc", base, 1})
+		} else if first || op.Renew {
+			prog = append(prog, []interface{}{"assoc", 0, 1})
+			first, hasU = false, false
+		}
+		switch op.Touch {
+		case c12TouchDrop:
+			prog = append(prog, []interface{}{"unscoped", nil, base})
+		case c12TouchKeep:
+			prog = append(prog, []interface{}{"unscoped", 2, base})
+		case c12TouchTwice:
+			prog = append(prog, []interface{}{"unscoped", 3, base}, []interface{}{"unscoped", nil, 3})
+		case c12TouchCount, c12TouchFind:
+			prog = append(prog, []interface{}{"unscoped", 3, base}, []interface{}{"read", 3})
+		}
+		as := base
+		switch {
+		case op.Via == 0 && op.Unscoped:
+			as = 200 + step
+			prog = append(prog, []interface{}{"unscoped", as, base})
+		case op.Via == 2:
+			if !hasU {
+				prog = append(prog, []interface{}{"unscoped", 1, 0})
+				hasU = true
+			}
+			as = 1
+		}
+		if op.Bad {
+			prog = append(prog, []interface{}{"call", as, "append", true})
+		}
+		prog = append(prog, []interface{}{"call", as, op.Op, false})
+		callAt = append(callAt, len(prog)-1)
+	}
+	return
+}
+
+func c12HandleTie(r *Result, seqs []c12Seq) {
+	var ops [][]interface{}
+	var calls [][]int
+	for _, s := range seqs {
+		prog, at := c12HandleProgram(s)
+		calls = append(calls, at)
+		ops = append(ops, []interface{}{"assoc.handles", c12KindByName(s.Kind).Card1, prog})
+	}
+	outs, err := AskLean(ops)
+	if err != nil {
+		r.Violate(Violation{Kind: "correspondence", Suite: "handle-programs", Note: err.Error()})
+		return
+	}
+	reals := c12ExecAll(seqs)
+	for i, s := range seqs {
+		k := c12KindByName(s.Kind)
+		var evs [][]string
+		if err := json.Unmarshal(outs[i], &evs); err != nil {
+			r.Violate(Violation{Kind: "correspondence", Suite: "handle-programs", Input: s, Observed: string(outs[i]), Note: "model rejected the program"})
+			continue
+		}
+		r.Case("handle-programs", canon(s), len(s.Ops) >= 2)
+		for step, op := range s.Ops {
+			if step >= len(reals[i]) || calls[i][step] >= len(evs) || len(evs[calls[i][step]]) != 1 {
+				break
+			}
+			ev := strings.Split(evs[calls[i][step]][0], ":")
+			o := reals[i][step]
+			r.H("handle-programs.event", ev[0]+fmt.Sprintf("/via=%d/touch=%d", op.Via, op.Touch))
+			if ev[0] == "polluted" {
+				break // listed finding F12h: not predicted
+			}
+			model := ev[0]
+			real := "op"
+			if o.Err != "" {
+				real = "refused"
+			}
+			if ev[0] == "op" && (op.Op != "append" || k.Card1) {
+				del, upd := false, false
+				for _, st := range o.Stmts {
+					del = del || st == "DELETE "+k.Table
+					upd = upd || st == "UPDATE "+k.Table
+				}
+				if o.Err == "" && (del || upd) { // (a has-one Append that names no record issues no statement at all)
+					model += " unscoped=" + ev[3]
+					real += fmt.Sprint(" unscoped=", del)
+				}
+			}
+			r.CorrCompared++
+			if model != real {
+				r.Violate(Violation{Kind: "correspondence", Suite: "handle-programs", Input: s, Observed: map[string]interface{}{"step": step, "real": real, "err": o.Err, "stmts": o.Stmts},
+					Expected: map[string]interface{}{"model": model}, Note: "real *gorm.Association handles vs Lean Gorm.Assoc.exec (Unscoped() as the regenerated facts say)"})
+				break
+			}
+		}
+	}
+}
+
+func init() {
+	register("C12", func(r *Result, rng *rand.Rand, tier string) {
+		defer c12Timed("handles")()
+		n := 500
+		if tier == "thorough" {
+			n = 12000
+		} else if tier == "search" {
+			n = 1500
+		}
+		var kinds []string
+		for _, k := range c12Kinds {
+			if k.Class == "fk" { // the clean-up statement of these relations shows whether the call ran Unscoped
+				kinds = append(kinds, k.Name)
+			}
+		}
+		cfg := c12GenCfg{Kinds: kinds, Unscoped: 0.6, Slice: 0.2, MaxLen: 6, Avoid: 0.9, Handles: 1}
+		var batch []c12Seq
+		for i := 0; i < n && !expired(); i++ {
+			s := c12GenSeq(rng, cfg)
+			for j := range s.Ops {
+				s.Ops[j].Other = 0 // (the statements of the other relation would blur the statement test)
+			}
+			batch = append(batch, s)
+		}
+		c12HandleTie(r, batch)
+	})
+	replayers["C12/handle-programs"] = func(r *Result, input json.RawMessage) {
+		var s c12Seq
+		if err := json.Unmarshal(input, &s); err != nil {
+			return
+		}
+		c12E2E(r, s, "e2e-sequences")
 	}
 }
